@@ -3,6 +3,7 @@ package lua
 import (
 	"fmt"
 	"io"
+	"math"
 	"os"
 	"runtime"
 	"strconv"
@@ -475,6 +476,14 @@ func baseUnpack(L *LState) int {
 	tb := L.CheckTable(1)
 	start := L.OptInt(2, 1)
 	end := L.OptInt(3, tb.Len())
+	if lv, ok := L.Get(3).(LNumber); ok && float64(lv) >= math.MaxInt {
+		// the conversion of such a float is not defined (it gives a negative index on amd64)
+		end = math.MaxInt
+	}
+	if n := end - start + 1; start <= end && (n <= 0 || !L.reg.hasRoom(n)) {
+		// n <= 0 means arithmetic overflow
+		L.RaiseError("too many results to unpack")
+	}
 	for i := start; i <= end; i++ {
 		L.Push(tb.RawGetInt(i))
 	}
